@@ -135,6 +135,7 @@ def run_history(ctx, init, steps, variant, kind):
     df = motlutil.vary_index(motlutil.poses_to_df(init, rng), variant)
     if (variant // 16) % 3 == 0:
         df = motlutil.int_positions(df)          # integer-typed position / shift columns where the values allow it
+    df = motlutil.vary_columns(df, variant // 2)  # Motl(df) accepts the 20 named columns in any order
     motl = cryomotl.Motl(df)
     cache = {} if len(steps) > 1 else None
     for i, st in enumerate(steps):
@@ -228,6 +229,7 @@ def run_float(ctx, cases):
         fdf = motlutil.vary_index(motlutil.df_from_cols(cols), case["id"])
         if case["id"] % 3 == 0:
             fdf = motlutil.int_positions(fdf)
+        fdf = motlutil.vary_columns(fdf, case["id"] // 2)
         motl = cryomotl.Motl(fdf)
         events = []
         aborted = None
@@ -295,6 +297,8 @@ def run_float(ctx, cases):
                     ev["integral"] = bool(np.max(np.abs(xs - np.rint(xs))) < 1e-9)
                     ev["maxshift"] = scaled(np.max(np.abs(sh)), 1e6)
             events.append(ev)
+            if not rows_ok:
+                break            # the step changed the rows themselves: the trace spec rejects it, later steps are not judged
         if aborted is not None:
             st = case["steps"][aborted[0]]
             sig = {"op": st["name"]}
